@@ -363,12 +363,12 @@ def run_corpus(ctx):
         c = json.load(open(f))
         evs = lr.parse_events(c['events']) if c['events'] and isinstance(c['events'][0], str) else c['events']
         ctx.count('core', 'corpus')
-        out = lr.replay(c['prog'], evs, drv=ctx.driver())
+        out = lr.replay(c['prog'], evs, drv=ctx.driver(), id_mode=c.get('id_mode', 'random'))
         ctx.evaluated('core', ['corpus', os.path.basename(f)], nontrivial=True)
         if not out['ok']:
             ctx.disagree('core', {'corpus': os.path.basename(f), 'prog': c['prog'], 'events': c['events'],
                                   'at': out['diverged_at']}, 'model event list', out['why'])
-        done, robs = replay_events(c['prog'], evs)
+        done, robs = replay_events(c['prog'], evs, id_mode=c.get('id_mode', 'random'))
         monitor_creation(ctx, done, robs, {'corpus': os.path.basename(f), 'prog': c['prog'], 'events': c['events']})
 
 
